@@ -232,7 +232,7 @@ let () =
         | ["base"; "mem"] -> cur.bases <- KMem :: cur.bases
         | ["base"; "phys"] -> cur.bases <- KPhys :: cur.bases
         | ["embfile"; p; b] -> cur.embfiles <- (prs (unhex p), unhex b) :: cur.embfiles
-        | ["base"; "emb"] -> cur.bases <- KEmb (List.rev cur.embfiles) :: cur.bases; cur.embfiles <- []
+        | ["base"; "emb"] | ["base"; "embd"] -> cur.bases <- KEmb (List.rev cur.embfiles) :: cur.bases; cur.embfiles <- []
         | ["base"; "embempty"] -> cur.bases <- KEmb [] :: cur.bases; cur.embfiles <- []
         | ["base"; "physfix"] -> cur.bases <- KPhysDir (List.rev cur.embfiles) :: cur.bases; cur.embfiles <- []
         | "fs" :: rest ->
